@@ -730,3 +730,65 @@ Proof.
   injection Hc as <- _. rewrite Forall_forall in H1. apply Forall_forall. intros b Hb.
   apply H1. eapply sublist_elem; [apply sublist_delete|exact Hb].
 Qed.
+
+(** * 9. Ballots of other decisions *)
+
+Definition others (id : bytes) (bs : list ballot) : list ballot :=
+  filter (fun b => other id b = true) bs.
+Definition live_list (h : Z) (bs : list ballot) : list ballot :=
+  filter (fun b => expired h b = false) bs.
+
+Lemma vote_others id from h bs bs1 n :
+  NoDup (map bid bs) -> vote bs id from h = (bs1, n) ->
+  (from ∈ stored_tally bs id h -> bs1 = bs) /\
+  (from ∉ stored_tally bs id h -> others id bs1 = others id (live_list h bs)).
+Proof.
+  intros Hnd Hv. split.
+  - intros Hin. destruct (vote_spec id from h bs Hnd) as (bs' & b' & Hv' & _ & _ & _ & _ & Hrep & _).
+    rewrite Hv in Hv'. injection Hv' as -> _. auto.
+  - intros Hnin. unfold vote in Hv. pose proof (vote_loop_spec id from h bs (-1) Hnd) as Hs.
+    destruct (vote_loop id from h bs (-1)) as [m|[nc f]] eqn:El.
+    + exfalso. destruct Hs as (b & Hf & He & Hin & _). apply Hnin.
+      unfold stored_tally. rewrite tlive_abs, Hf. cbn [live_b]. rewrite He. exact Hin.
+    + pose proof (vote_loop_others _ _ _ _ _ _ _ El) as Ho. unfold others, live_list.
+      destruct (f <? 0); injection Hv as <- _; [|exact Ho].
+      rewrite filter_app, Ho.
+      rewrite (filter_cons_False _ (mkBallot id [from] h)) by (unfold other; cbn [bid]; rewrite bytes_eqb_refl; discriminate).
+      rewrite filter_nil. apply app_nil_r.
+Qed.
+
+Lemma delete_first_index id bs b :
+  find_id id bs = Some b -> delete (first_index id bs) bs = remove_first id bs.
+Proof.
+  intros Hf. unfold first_index. destruct (find_idx id bs 0) as [j|] eqn:E.
+  - apply find_idx_some in E as (k & -> & _ & Hd). exact Hd.
+  - apply find_idx_none in E. congruence.
+Qed.
+
+Lemma collect_others a id from h bs bs' go :
+  NoDup (map bid bs) -> collect a bs id from h = Halt (bs', go) ->
+  (from ∈ stored_tally bs id h -> others id bs' = others id bs) /\
+  (from ∉ stored_tally bs id h -> others id bs' = others id (live_list h bs)).
+Proof.
+  intros Hnd Hc. unfold collect in Hc. destruct (vote bs id from h) as [bs1 n] eqn:Ev.
+  destruct (vote_others _ _ _ _ _ _ Hnd Ev) as [H1 H2].
+  destruct (vote_spec id from h bs Hnd) as (bs1' & b' & Hv' & _ & Hf & _).
+  rewrite Ev in Hv'. injection Hv' as <- _.
+  assert (Hb : others id bs' = others id bs1).
+  { destruct (n <? threshold a); [injection Hc as <- _; reflexivity|].
+    rewrite (remove_votes_found _ _ _ Hf) in Hc. cbn [obind] in Hc. injection Hc as <- _.
+    apply remove_first_others. }
+  rewrite Hb. split; intros Hx; [rewrite (H1 Hx); reflexivity|exact (H2 Hx)].
+Qed.
+
+(** A repeated vote below the threshold leaves the storage untouched. *)
+Lemma collect_repeat_inert a id from h bs bs' :
+  NoDup (map bid bs) -> collect a bs id from h = Halt (bs', false) ->
+  from ∈ stored_tally bs id h -> bs' = bs.
+Proof.
+  intros Hnd Hc Hin. unfold collect in Hc. destruct (vote bs id from h) as [bs1 n] eqn:Ev.
+  destruct (vote_others _ _ _ _ _ _ Hnd Ev) as [H1 _].
+  destruct (n <? threshold a).
+  - injection Hc as <-. auto.
+  - destruct (remove_votes bs1 id); cbn [obind] in Hc; discriminate.
+Qed.
